@@ -84,7 +84,7 @@ PROPS = {
     ),
     "C05": dict(
         bins={"main": dict(tc="gcc", src="prop_C05.cpp", variants=["plain"])},
-        parts=[dict(name="gp", workers={Q: 16, T: 16}, cases={Q: 2500, T: 80000})],
+        parts=[dict(name="gp", workers={Q: 16, T: 16}, cases={Q: 12000, T: 150000})],
         rule=("cases = 1-3 open polylines (2-8 vertices) over closed subject/clip sets, all in general position (every "
               "vertex and crossing >= 3 units from every other edge, open ones included), |coord| <= 2^32; each case runs 4 "
               "clip types x 4 fill rules x {paths, polytree}. Reference: every open segment is cut at its exact crossings "
@@ -102,7 +102,7 @@ PROPS = {
     "C02": dict(
         bins={"main": dict(tc="gcc", src="prop_C02.cpp", variants=["plain"])},
         parts=[
-            dict(name="random", workers={Q: 12, T: 14}, cases={Q: 2500, T: 80000}),
+            dict(name="random", workers={Q: 12, T: 14}, cases={Q: 40000, T: 600000}),
             dict(name="pairs4x4", kind="enum", workers={Q: 4, T: 2}),
         ],
         rule=("cases = sets of closed rectilinear walks/rectangles on a random lattice (2..9 lines, steps 1..2^58/G, "
